@@ -38,4 +38,11 @@ def stepSky (args : List String) : String :=
   | "endblock" :: _ => "returned"
   | _ => "bad-op"
 
+/-- `C01A outside <kind>`: nothing an ordinary account can do with the bank credits the bridge's module account (the
+    application lists it among the blocked addresses), so with nothing pending the escrow stays as it is -/
+def stepOutside (args : List String) : String :=
+  match args with
+  | "outside" :: _ => "escrow-unchanged"
+  | _ => "bad-op"
+
 end Driver.C09G
